@@ -9,6 +9,7 @@
 -/
 import BartiqProofs.SortLemmas
 import BartiqProofs.EvaluateLemmas
+import BartiqProofs.GraphLemmas
 namespace Bartiq
 open Expr
 
@@ -50,5 +51,34 @@ theorem C09_assignment_order_irrelevant (C : Comparator) (c : CRoutine) (σ σ' 
 
 -- non-vacuity
 example : ["b", "a", "c"].Perm ["c", "b", "a"] := by decide
+
+/-- local variables are processed in DEPENDENCY order, whatever order they are listed in: in the order the model of
+    `TopologicalSorter(...).static_order()` returns, every variable comes after all the variables its definition mentions, every
+    variable appears exactly once, and nothing else appears (from the correctness of Kahn's algorithm, GraphLemmas.staticOrder_spec) -/
+theorem C09_locals_in_dependency_order (locals : Dict Expr) (order : List String) (h : localOrder locals = some order) :
+    order.Nodup ∧ (∀ v ∈ order, locals.contains v = true) ∧
+    ∀ (pre post : List String) (v : String) (e : Expr), order = pre ++ v :: post → locals.get? v = some e →
+      ∀ u ∈ fv e, locals.contains u = true → u ∈ pre := by
+  unfold localOrder at h
+  obtain ⟨h1, h2, h3⟩ := Graph.staticOrder_spec _ order h
+  refine ⟨h1, fun v hv => ?_, fun pre post v e ho hg u hu hc => ?_⟩
+  · obtain ⟨kv, hkv, hx⟩ := Graph.mem_nodes _ v (h2 v hv)
+    simp only [List.mem_map] at hkv
+    obtain ⟨x, hx', rfl⟩ := hkv
+    rcases hx with rfl | hx
+    · exact Dict.contains_of_mem locals x.1 x.2 hx'
+    · simp only [List.mem_eraseDups, List.mem_filter] at hx
+      exact hx.2
+  · subst ho
+    rw [Graph.respects_append] at h3
+    simp only [Bool.and_eq_true, Graph.respects, List.all_eq_true, Bool.or_eq_true, bne_iff_ne, ne_eq, List.nil_append] at h3
+    have hedge : (u, v) ∈ Graph.edges (locals.map fun kv => (kv.1, ((Expr.fv kv.2).filter locals.contains).eraseDups)) := by
+      simp only [Graph.edges, List.mem_flatMap, List.mem_map]
+      refine ⟨(v, ((Expr.fv e).filter locals.contains).eraseDups), ⟨(v, e), Dict.get?_some_mem' locals v e hg, rfl⟩, u, ?_, rfl⟩
+      simp only [List.mem_eraseDups, List.mem_filter]
+      exact ⟨hu, hc⟩
+    rcases h3.2.1 (u, v) hedge with hne | hmem
+    · exact absurd rfl hne
+    · simpa using hmem
 
 end Bartiq
